@@ -397,6 +397,15 @@ let run_line (line : string) : string =
           let (p, r1) = parse_point r in let (x, _) = parse_expr r1 in
           show_opt (show_outcome show_partials)
             (differential_at_early ops (fuel ()) (depth ()) x (enum_of x) p) "FUEL"
+      | "STEPCOUNT" ->
+          let (x, _) = parse_expr r in
+          let fu = fuel () in
+          let tr = reduce_trace ops fu x in
+          let y = fully_reduce ops fu x in
+          (match step ops y with
+           | Some _ -> "FUEL steps"
+           | None -> Printf.sprintf "forms=%d final=%s" (List.length tr + 1) (show_expr y))
+      | "STEPINFO" | "EQX" | "PEQX" | "REPRINJ" | "NUMREPR" | "NAMES" | "OPS" | "CTOROPS" -> "SKIP"
       | "NTRACE" ->
           let (x, _) = parse_expr r in ntrace x
       | "PTRACE" ->
@@ -483,6 +492,6 @@ let () =
         | Stack_overflow -> "ERROR stack"
         | Failure m -> "ERROR failure " ^ m
         | Not_found -> "ERROR notfound" in
-      print_string out; print_char '\n'
+      print_string out; print_char '\n'; flush stdout
     done
   with End_of_file -> ()
